@@ -16,7 +16,8 @@ RULE = ("case = (generator type, construction path, jds, motif sizes, build call
         "of (callback, argument list) calls, the three columns (or the graph), joint_degrees, shuffle protocol. "
         "Non-trivial = a valid case with at least two callback calls; distinct by (type, jds, sizes, indices, pis)")
 EXHAUSTIVE = {"quick": True, "thorough": True}
-EXPLANATION = ("general theorems (all jds, sizes, callbacks, permutations) in Props/C01.v; the correspondence is "
+EXPLANATION = ("general theorems (all jds, sizes, callbacks, permutations) in Props/C01.v, incl. the network variant as "
+               "the Coq composition of the generator model with the conversion model (C01_network_variant); the correspondence is "
                "exhaustive over the small family named in the rule (all permutations) and seeded-random beyond")
 ASSUMPTIONS = ["random.shuffle(l) is the only randomness the generators use (enforced: every other random/numpy.random "
                "entry point raises during a run)",
@@ -33,11 +34,22 @@ LEVEL_TEXT = (
     "hypothesis the fast/network and custom-motif models make exactly sum_v jds[v][k]/size_k callback calls per "
     "topology, each on size_k stubs (custom: one partition per orbit), every vertex v occupies exactly jds[v][k] "
     "slots of topology k, no vertex outside 0..N-1 occurs, joint_degrees is carried unchanged, and the factory / "
-    "load_gcm_algorithm dispatch equals direct construction. The checker c01_check is proved equivalent to the "
+    "load_gcm_algorithm dispatch equals direct construction. Network variant as a COMPOSITION (Model/GenNet.v: "
+    "gen_network = Conv.to_network applied to the fast generator's edge list, as in gcm_algorithm_network.py; "
+    "C01_network_variant, general, same hypotheses): the returned network has exactly the vertices 0..N-1, each "
+    "annotated with jds[v]; its edge set is the set of callback edges (unordered pairs, each once); a pair produced "
+    "once carries its row's name and id; when no unordered pair is produced twice the network has one edge per row "
+    "and every edge of motif instance d of topology j carries (name_j, id d); C01_network_converts_back: "
+    "NetworkToEdgeList on the generated network always succeeds and returns jds and one row per generated pair "
+    "(the generated list itself when no pair repeats); C01_network_errors / _total: it fails exactly as the fast "
+    "generator does. The checker c01_check is proved equivalent to the "
     "Prop-level specification and is run on the real generators' logged callback calls (plus the proved-equivalent closedness test: every motif's edges use only its own stubs); the model is tied to "
     "/repo by exact comparison under scripted shuffles (exhaustive small family, all permutations, all three "
     "types, all three construction paths).")
-LEVEL_NOTE = ("Trusted: Coq kernel; extraction + OCaml driver + Python harness for the correspondence; "
+LEVEL_NOTE = ("The network theorems speak about gen_network (Gallina composition); on the wire the network case still "
+              "runs the fast model and the harness compares the real graph with the model's columns (edge set, node range, "
+              "attributes among the rows of the pair) - the conversion model itself is tied to the code by C04's "
+              "correspondence. Trusted: Coq kernel; extraction + OCaml driver + Python harness for the correspondence; "
               "iteration_utilities.grouper modelled, not verified. Print Assumptions: closed under the global context.")
 
 
